@@ -15,10 +15,15 @@ RULE = ('(a) random compiled-rule records (0-5 symbols, terminals/rules, `_` nam
         'object on 3 random children lists (tokens, trees, None, occasionally ill-typed or of wrong arity) against '
         'Shape/Chain.v and against the independent Shape/Spec.v; (b) the same for the compiled rules of random EBNF '
         'grammars; (c) end to end: random EBNF grammars using ?/!/_ rules, aliases, [..], ?, *, +, ~n..m, groups, '
-        'templates, filtered and kept tokens x keep_all_tokens x maybe_placeholders: for sampled sentences every '
+        'templates, filtered and kept tokens, and (half of the grammars) symbol / word literals whose auto-names '
+        '(PLUS, MINUS, COMMA, ...) are already owned by a user terminal with another pattern or by an earlier literal, '
+        'x keep_all_tokens x maybe_placeholders: the oracle is the meaning of the grammar TEXT (a literal stands for its '
+        'own text, a terminal for the pattern written in its definition; token types invented for anonymous literals are '
+        'not compared, values and order are); for sampled sentences every '
         'engine (Earley dynamic/basic/dynamic_complete, Earley explicit, LALR basic/contextual, CYK) must return a '
         'tree in the oracle\'s set of documented shapings of the derivations of the text (brute-force enumeration on '
-        'the EBNF), all equal when there is one derivation; the derivation followed by lark\'s LALR driver is shaped '
+        'the EBNF), all equal when there is one derivation; for near-miss texts (a symbol literal swapped with the pattern of the owner '
+        'of its auto-name, one-character edits) that the grammar text does not derive no engine may return a tree; the derivation followed by lark\'s LALR driver is shaped '
         'by Spec.shape and by the chain-at-each-reduction driver in Coq and must give lark\'s tree; (f) random rule trees '
         '(symbols, _EMPTY, expansion, expansions): FindRuleSize(keep_all).transform and the _EMPTY count of '
         'EBNF_to_BNF.maybe against Shape/Ebnf.frs and the longest-alternative count; (r) fixed F18 regression grammars; (g) Earley leg: the SPPF lark builds (ambiguity=forest, basic / dynamic '
@@ -311,7 +316,7 @@ def has_ambig(t):
     return t[1] == '_ambig' or any(has_ambig(c) for c in t[2])
 
 
-def check_text(ctx, G, gtext, parsers, oracle, text, ka, mp, stream, key=None):
+def check_text(ctx, G, gtext, parsers, oracle, text, ka, mp, stream, key=None, generated=True):
     """run every engine on one text and compare with the oracle; returns the LALR tree (or None)"""
     from lark.exceptions import LarkError
     try:
@@ -325,7 +330,8 @@ def check_text(ctx, G, gtext, parsers, oracle, text, ka, mp, stream, key=None):
     for (parser, lexer, amb), p in parsers.items():
         try:
             res = p.parse(text)
-            got = ('ok', sl.stree_of(res))
+            # token types lark invents for anonymous literals are not compared (values and order are)
+            got = ('ok', sl.canon_lit_types(sl.stree_of(res), G.named))
         except LarkError as ex:
             got = ('reject', type(ex).__name__)
         except sl.NotShaped as ex:
@@ -337,9 +343,15 @@ def check_text(ctx, G, gtext, parsers, oracle, text, ka, mp, stream, key=None):
         ctx.count(stream, key=(gtext, ka, mp, text, eng), nontrivial=tree_nodes >= 2, engine=eng,
                   derivations=min(nder, 3), result=got[0])
         bad = None
-        if nder == 0:
+        if nder == 0 and generated:
             # our sentence generator produced it, so the oracle must derive it: harness self-check
             bad = 'oracle derives nothing for a generated sentence'
+        elif nder == 0:
+            # the grammar TEXT does not derive this input: no engine may return a tree for it
+            if got[0] == 'ok':
+                bad = 'engine %s returns %s for a text the grammar does not derive' % (eng, sl.show(got[1]))
+            elif got[0] != 'reject':
+                bad = 'engine %s: %s %s' % (eng, got[0], got[1])
         elif got[0] != 'ok':
             if parser in ('cyk', 'lalr') and got[0] == 'reject':
                 continue        # acceptance is C01/C02's business; C03 speaks about the trees that are returned
@@ -351,13 +363,40 @@ def check_text(ctx, G, gtext, parsers, oracle, text, ka, mp, stream, key=None):
             bad = 'engine %s returns %s which is not the documented shaping of any derivation (%d derivation(s), e.g. %s)' % (
                 eng, sl.show(got[1]), nder, sl.show(shapes[0]))
         if bad:
-            ctx.violation('e2e-shape', {'grammar': gtext, 'rules': G.rules, 'text': text, 'keep_all_tokens': ka,
+            ctx.violation('e2e-shape', {'grammar': gtext, 'rules': G.rules, 'named': G.named, 'text': text, 'keep_all_tokens': ka,
                                         'maybe_placeholders': mp, 'parser': parser, 'lexer': lexer, 'ambiguity': amb,
                                         'derivations': nder, 'expected': [sl.show(s) for s in sorted(allowed, key=repr)[:4]],
                                         'observed': got[0] if got[0] != 'ok' else sl.show(got[1])}, True, bad, key=key)
-        if parser == 'lalr' and lexer == 'basic' and got[0] == 'ok':
-            lalr_tree = got[1]
+        if parser == 'lalr' and lexer == 'basic' and got[0] == 'ok' and nder:
+            lalr_tree = sl.stree_of(res)
     return lalr_tree
+
+
+def negative_texts(rng, G, texts):
+    """texts near the sentences: a symbol literal swapped with the pattern of the terminal / word literal that
+    owns its auto-name, and random one-character edits over the grammar's alphabet"""
+    alphabet = sorted(set(''.join(G.named.values())) | set('xyz+-,*(;.)'))
+    out = []
+    for t in texts:
+        for sym_, auto, squat in sl.COLLIDE:
+            alts = [squat] + ([sl.KEYWORDS[sym_]] if sym_ in sl.KEYWORDS else [])
+            for a in alts:
+                if sym_ in t:
+                    out.append(t.replace(sym_, a, 1))
+                if a in t:
+                    out.append(t.replace(a, sym_, 1))
+        if t:
+            i = rng.randrange(len(t))
+            out.append(t[:i] + t[i + 1:])
+            out.append(t[:i] + rng.choice(alphabet) + t[i + 1:])
+        out.append(t + rng.choice(alphabet))
+    rng.shuffle(out)
+    seen, res = set(texts), []
+    for t in out:
+        if t not in seen and len(t) <= 16:
+            seen.add(t)
+            res.append(t)
+    return res[:5]
 
 
 def make_parsers(ctx, gtext, ka, mp, stream):
@@ -375,10 +414,12 @@ def make_parsers(ctx, gtext, ka, mp, stream):
     return parsers
 
 
-def rebuild(rules):
+def rebuild(rules, named=None):
     G = sl.Gram()
     G.rules = rules
     G.by_name = {r['name']: r for r in rules}
+    if named:
+        G.named = named
     return G
 
 
@@ -442,7 +483,7 @@ def correspond(ctx):
                     ctx.histo.setdefault('feature', {})
                     ctx.histo['feature'][ft] = ctx.histo['feature'].get(ft, 0) + 1
             any_p = next(iter(parsers.values()))
-            oracle = sl.Oracle(G, ka, mp, sl.literal_names(any_p))
+            oracle = sl.Oracle(G, ka, mp)
             lalr = parsers.get(('lalr', 'basic', None))
             lalr_ok += (lalr is not None and (ka, mp) == (False, True))
             if lalr is not None and rng.random() < 0.5:
@@ -452,6 +493,8 @@ def correspond(ctx):
                     cyk_cases(ctx, parsers[('cyk', 'basic', None)], gtext, texts, ka, mp)
                 except Exception as ex:
                     ctx.violation('harness:cyk-capture', {'grammar': gtext, 'error': repr(ex)[:300]}, False, repr(ex)[:300])
+            for text in negative_texts(rng, G, texts):
+                check_text(ctx, G, gtext, parsers, oracle, text, ka, mp, 'e2e-near', generated=False)
             for text in texts:
                 tree = check_text(ctx, G, gtext, parsers, oracle, text, ka, mp, 'e2e')
                 if rng.random() < 0.45:
@@ -501,10 +544,50 @@ def correspond(ctx):
     rng.shuffle(recs)
     callback_cases(ctx, recs[:ctx.scale(100, 1200)], 'callback-compiled', False)
     DEFER.run(ctx, 'c03', 'c03_check')
+    # (x) regression F44 (fixed in /repo): CYK's to_cnf lost unit-skip rules depending on the hash seed
+    # (UnitSkipRule.__eq__ ignored lhs/rhs); the witness runs in fresh interpreters over hash seeds 0..11
+    ctx.count('regress-F44-cyk-hashseed', key='cyk-hashseed')
+    hb = cyk_hashseed_bad(*CYK_HASH_WITNESS)
+    if hb:
+        ctx.violation('e2e-cyk-hashseed', {'grammar': CYK_HASH_WITNESS[0], 'text': hb[1], 'hashseed': hb[0], 'accepted_with_hashseed': hb[2]}, True,
+                      'parser=cyk rejects %r under PYTHONHASHSEED=%d and accepts it under PYTHONHASHSEED=%d' % (hb[1], hb[0], hb[2]))
+
+
+CYK_HASH_WITNESS = ('start: a "1" | d "2"\na: b\nd: b\nb: c\nc: X Y\nX: "x"\nY: "y"\n', ['xy1', 'xy2'])
+
+
+def cyk_hashseed_bad(grammar, texts, seeds=range(12)):
+    """run the CYK parser in fresh interpreters under several PYTHONHASHSEEDs; returns (seed, text) of a sentence
+    rejected under one seed and accepted under another, or None"""
+    import os
+    import subprocess
+    import sys
+    import lib
+    code = ('import sys, json\nfrom lark import Lark\nfrom lark.exceptions import LarkError\n'
+            'g, texts = json.loads(sys.argv[1])\np = Lark(g, parser="cyk")\nout = []\n'
+            'for t in texts:\n    try:\n        p.parse(t); out.append(True)\n    except LarkError:\n        out.append(False)\n'
+            'print(json.dumps(out))\n')
+    results = {}
+    for sd in seeds:
+        env = dict(os.environ, PYTHONHASHSEED=str(sd), PYTHONPATH=lib.REPO)
+        r = subprocess.run([sys.executable, '-c', code, json.dumps([grammar, texts])], env=env, stdout=subprocess.PIPE,
+                           stderr=subprocess.DEVNULL, text=True, timeout=120)
+        try:
+            results[sd] = json.loads(r.stdout)
+        except ValueError:
+            continue
+    for i, t in enumerate(texts):
+        acc = [sd for sd, v in results.items() if v[i]]
+        rej = [sd for sd, v in results.items() if not v[i]]
+        if acc and rej:
+            return rej[0], t, acc[0]
+    return None
 
 
 def replay(ctx, case):
     w = case['witness']
+    if 'hashseed' in w:
+        return cyk_hashseed_bad(w['grammar'], [w['text']]) is not None
     if 'fixed' in w:
         return f18_bad(w['grammar'], w['text'], w['parser'])
     if 'construct_error' in w:
@@ -518,19 +601,21 @@ def replay(ctx, case):
         return False
     if 'rules' in w and 'text' in w:
         from lark.exceptions import LarkError
-        G = rebuild(w['rules'])
+        G = rebuild(w['rules'], w.get('named'))
         try:
             p = build(w['grammar'], w['parser'], w['lexer'], w.get('ambiguity'), w['keep_all_tokens'], w['maybe_placeholders'])
         except LarkError:
             return True
-        oracle = sl.Oracle(G, w['keep_all_tokens'], w['maybe_placeholders'], sl.literal_names(p))
+        oracle = sl.Oracle(G, w['keep_all_tokens'], w['maybe_placeholders'])
         shapes = oracle.parses(w['text'])
         try:
-            got = sl.stree_of(p.parse(w['text']))
+            got = sl.canon_lit_types(sl.stree_of(p.parse(w['text'])), G.named)
         except LarkError:
-            return w['parser'] not in ('lalr', 'cyk')
+            return bool(shapes) and w['parser'] not in ('lalr', 'cyk')
         except Exception:
             return True
+        if not shapes:
+            return True            # a tree for a text the grammar does not derive
         if w.get('ambiguity') == 'explicit' and has_ambig(got):
             return len(shapes) == 1
         return got not in set(_tuplify(s) for s in shapes)
